@@ -61,13 +61,35 @@ def gen_cases(rng, tier):
             descs = [["t/x", [["stringlist", "a"], ["string", "b"]]], ["t/x", [["string", "a"], ["string", "listb"]]],
                      ["t/y", [["string", "a"]]], ["t/y", [["varint", "a"]]]]
         recs = []
+        if w == 2:
+            # two groups of one name and one flattened field list, made of different member types (A(x)+B(y), then
+            # C(x, y)); the member types may or may not have been written on the stream before
+            fa, fb = [["string", "x"]], [["varint", "y"]]
+            A, B, C = ["g/a", fa], ["g/b", fb], ["g/c", fa + fb]
+            g1 = ["grouped", "grp/same", [V.gen_record(r, descspec=A), V.gen_record(r, descspec=B)]]
+            g2 = ["grouped", "grp/same", [V.gen_record(r, descspec=C)]]
+            recs = [g1, g2] if r.chance(50) else [g2, g1]
+            if r.chance(40):
+                recs.insert(r.randint(0, 2), V.gen_record(r, descspec=r.choice([A, B, C])))
         for _ in range(k):
             if r.chance(8) and len(recs) >= 0:
-                members = [V.gen_record(r, descspec=r.choice(descs)) for _ in range(r.randint(1, 3))]
+                # members of ONE group never include two different types of the same name (an object holding both
+                # types of the identifier-colliding pair is C03's recorded finding, not C01's subject)
+                by_name = {}
+                for dsp in descs:
+                    by_name.setdefault(dsp[0], dsp)
+                members = [V.gen_record(r, descspec=by_name[r.choice(descs)[0]]) for _ in range(r.randint(1, 3))]
                 recs.append(["grouped", r.choice(["grp/x", "g"]), members])
             else:
                 recs.append(V.gen_record(r, descspec=r.choice(descs)))
-        cases.append({"kind": "stream", "via": r.choice(["fileobj", "fileobj", "path", "gz"]), "records": recs})
+        case = {"kind": "stream", "via": r.choice(["fileobj", "fileobj", "path", "gz"]), "records": recs}
+        if r.chance(15):
+            # a comparison-ignore configuration is in force while the records are written and read (FLOW_RECORD_IGNORE /
+            # set_ignored_fields_for_comparison): it concerns == and hash() only, never what is stored
+            names = [n for s_ in recs if s_[0] == "rec" for _, n in s_[1][1]]
+            case["ignore"] = r.choice([["_generated"], ["_source", "_classification"], names[:1] or ["x"],
+                                       names + ["_generated", "_version"]])
+        cases.append(case)
     # per-type focused sequences: one field, boundary pool swept
     r = rng.fork("types")
     for t in V.SERIALISABLE:
@@ -199,6 +221,10 @@ def run_real(case):
         for r in recs:
             W.all_descs(r, hashes)
         d = None
+        import flow.record.base as _B
+        _saved_ignore = set(_B.IGNORE_FIELDS_FOR_COMPARISON)
+        if case.get("ignore"):
+            _B.set_ignored_fields_for_comparison(list(case["ignore"]))
         try:
             if case["via"] == "fileobj":
                 buf = io.BytesIO()
@@ -236,6 +262,7 @@ def run_real(case):
                     got, err = [], _errname(e) + ": " + str(e)[:100]
                 rd.close()
         finally:
+            _B.set_ignored_fields_for_comparison(_saved_ignore)
             if d:
                 shutil.rmtree(d, ignore_errors=True)
         after = [V.observe(r) for r in got]
